@@ -39,6 +39,8 @@
 //!        (0 bytes) String child | (1 cp) char child | (3 n) i64 child | (4) unit
 //!        (5 k view)  Suspend::new(async { future k; view })
 //!        (2 tag attrs children)  tag: index into TAGS
+//!        (9 svgtag attrs children)  an element of tachys::svg (svg g style script title text a desc): foreign
+//!                        content, in which style / script / title are ordinary elements
 //!        (7 k v)  a primitive child (prim(): bool, integers of every width, floats, IpAddr, NonZero)
 //!        (8 attrs view)  view.add_any_attr(attrs): attributes handed to a type-erased view from outside
 //!                        (the `extra_attrs` path of to_html_with_buf)
@@ -437,6 +439,20 @@ pub fn view(v: &Sexp) -> AnyView {
             .into_any()
         }
         6 => meta_node(v),
+        9 => {
+            let at = attrs(v.at(2));
+            let kids: Vec<AnyView> = v.at(3).list().iter().map(view).collect();
+            match v.at(1).num() {
+                0 => container!(svg_svg, at, kids),
+                1 => container!(svg_g, at, kids),
+                2 => container!(svg_style, at, kids),
+                3 => container!(svg_script, at, kids),
+                4 => container!(svg_title, at, kids),
+                5 => container!(svg_text, at, kids),
+                6 => container!(svg_a, at, kids),
+                _ => container!(svg_desc, at, kids),
+            }
+        }
         7 => with_prim!(v.at(1).num(), v.at(2).num(), |x| x.into_any(), |b| b.into_any()),
         8 => view(v.at(2)).add_any_attr(attrs(v.at(1))).into_any(),
         0 => text_child(v.at(2).num(), text(v.at(1))),
@@ -464,6 +480,15 @@ pub fn view(v: &Sexp) -> AnyView {
     }
 }
 
+fn svg_svg() -> tachys::html::element::HtmlElement<tachys::svg::Svg, (), ()> { tachys::svg::svg() }
+fn svg_g() -> tachys::html::element::HtmlElement<tachys::svg::G, (), ()> { tachys::svg::g() }
+fn svg_style() -> tachys::html::element::HtmlElement<tachys::svg::Style, (), ()> { tachys::svg::style() }
+fn svg_script() -> tachys::html::element::HtmlElement<tachys::svg::Script, (), ()> { tachys::svg::script() }
+fn svg_title() -> tachys::html::element::HtmlElement<tachys::svg::Title, (), ()> { tachys::svg::title() }
+fn svg_text() -> tachys::html::element::HtmlElement<tachys::svg::Text, (), ()> { tachys::svg::text() }
+fn svg_a() -> tachys::html::element::HtmlElement<tachys::svg::A, (), ()> { tachys::svg::a() }
+fn svg_desc() -> tachys::html::element::HtmlElement<tachys::svg::Desc, (), ()> { tachys::svg::desc() }
+
 fn style_el() -> tachys::html::element::HtmlElement<tachys::html::element::Style, (), ()> {
     tachys::html::element::style()
 }
@@ -487,6 +512,10 @@ fn static_view(k: i64) -> String {
         // unquoted text (rstml raw text: the tokens as they are written, spacing not preserved)
         13 => view! { <div>a & b &amp; c</div> }.to_html(),
         14 => view! { <div><p>a & b &amp; c "q" 'r' d</p><span>&lt;b&gt; &#60; x</span></div> }.to_html(),
+        // literal text in svg subtrees: root of the view!, and nested in a static (macro-inlined) subtree
+        15 => view! { <svg><style>"a<b{}</style><c>&lt;"</style><script>"1<2&amp;"</script><title>"</title><b>"</title><text>"<tspan>&gt;"</text></svg> }.to_html(),
+        16 => view! { <section><div class="w"><svg><style>"a<b{}</style><c>&lt;"</style><script>"1<2&amp;"</script><title>"</title><b>"</title><text>"<tspan>&gt;"</text></svg></div><p>"x"</p></section> }.to_html(),
+        17 => view! { <div><p><svg><g><style>"x</g><img src=x onerror=alert(1)>"</style></g><desc>"<![CDATA[<b>]]>"</desc></svg></p></div> }.to_html(),
         // the scope class of `view! { class = ..., }`: on every element, inert or not
         _ => view! { class = "g\" onclick=\"alert(1)", <div><p>"static child"</p><span class="own">"x"</span>{1}</div> }.to_html(),
     }
@@ -630,6 +659,16 @@ fn template_view(k: i64, s: String) -> String {
             let t = s.clone();
             let attrs = view! { <{..} title=s data-k=t/> };
             view! { <div {..attrs}>"x"</div> }.to_html()
+        }
+        // svg subtrees in view!: dynamic children of style / script / title / text / a / desc
+        20 => view! { <svg><style>{s}</style></svg> }.to_html(),
+        21 => {
+            let (t, u, w) = (s.clone(), s.clone(), s.clone());
+            view! { <div><svg viewBox="0 0 1 1"><script>{s}</script><title>{t}</title><text x="1">{u}</text><style>"a{}"{w}</style></svg></div> }.to_html()
+        }
+        22 => {
+            let (t, u) = (s.clone(), s.clone());
+            view! { <svg><a href=s><text>{t}</text></a><desc>{u}</desc><g class="c"><text>"k"</text></g></svg> }.to_html()
         }
         // a fragment at the root of the view!
         19 => view! { "a<b" {s} <p>"x"</p> }.to_html(),
